@@ -30,8 +30,8 @@ func (l *vcLog) Infof(format string, args ...interface{}) {
 }
 func (l *vcLog) Warn(args ...interface{})                  {}
 func (l *vcLog) Warnf(format string, args ...interface{})  {}
-func (l *vcLog) Error(args ...interface{})                 { l.errs = append(l.errs, "error") }
-func (l *vcLog) Errorf(format string, args ...interface{}) { l.errs = append(l.errs, "error") }
+func (l *vcLog) Error(args ...interface{})                 { l.errs = append(l.errs, fmt.Sprint(args...)) }
+func (l *vcLog) Errorf(format string, args ...interface{}) { l.errs = append(l.errs, fmt.Sprintf(format, args...)) }
 func (l *vcLog) Fatal(args ...interface{})                 {}
 func (l *vcLog) Fatalf(format string, args ...interface{}) {}
 
@@ -51,10 +51,23 @@ var vcCases = []vcScriptCase{
 	{files: map[string]string{"a.p": "use(\"b.ppl\")\nadd_key(after, 2)\n", "b.ppl": "set_measurement(\"from_b\")\nset_tag(who, \"b\")\n"}, script: "a.p", ok: true},
 	{files: map[string]string{"a.p": "add_key(x, 1)\n", "z.p": "add_key(y, = )\n"}, script: "a.p", ok: true}, // a broken sibling does not matter
 	{files: map[string]string{"a.p": "add_key(x, 1)\n", "b.p": "add_key(only_b, 1)\n"}, script: "b.p", ok: true},   // selected by name
+	{files: map[string]string{"svc.access.ppl": "use(\"common.v2.p\")\nadd_key(after, 2)\n", "common.v2.p": "set_tag(who, \"common\")\n"}, script: "svc.access.ppl", ok: true}, // dots inside names
 	{files: map[string]string{"a.p": "x = = 1\n"}, script: "a.p", ok: false},                                         // load error
 	{files: map[string]string{"a.p": "nosuch(1)\n"}, script: "a.p", ok: false},                                       // check error
 	{files: map[string]string{"a.p": "l = [1]\ny = l[5]\n"}, script: "a.p", ok: false},                               // run error
 	{files: map[string]string{"a.p": "add_key(x, 1)\n"}, script: "missing.p", ok: false},                             // not found
+}
+
+// vcSameLoadError: when the library rejects the selected script at load time, the runner
+// reports that error (its text, with the position), not a generic one.
+func vcSameLoadError(files map[string]string, script string, logger *vcLog) {
+	_, errs := engine.ParseScript(files, funcs.FuncsMap, funcs.FuncsCheckMap)
+	e, failed := errs[script]
+	if !failed || len(logger.errs) == 0 {
+		return
+	}
+	verifnd.Reach("load-error-text")
+	verifnd.Assert(strings.Contains(logger.errs[0], e.Error()), "reported-error-is-the-load-error")
 }
 
 // VerifCliRun: workspace or single-file mode, text input, JSON output: the rendered measurement,
@@ -82,8 +95,8 @@ func VerifCliRun() {
 		opts.Workspace = root
 	} else {
 		// single-file mode: the script is named by its path
-		verifnd.Assume(len(c.files) == 1 && c.script == "a.p")
-		opts.Script = root + "/a.p"
+		verifnd.Assume(len(c.files) == 1)
+		opts.Script = root + "/" + c.script
 	}
 	if withInput {
 		opts.Input = root + "/in.txt"
@@ -108,6 +121,7 @@ func VerifCliRun() {
 		verifnd.Reach("error-case")
 		verifnd.Assert(len(rendered) == 0, "error-instead-of-output")
 		verifnd.Assert(len(logger.errs) > 0, "error-is-reported")
+		vcSameLoadError(c.files, c.script, logger)
 		return
 	}
 	if !workspace {
